@@ -885,6 +885,14 @@ impl Engine for F32Engine {
         );
     }
 
+    fn coarse_class(&self, case: &Case, kind: &str) -> String {
+        format!("{}|{}|{}|{}", case.kernel, case.path(), kind, case.well_formed())
+    }
+
+    fn fault_class(&self, case: &Case) -> String {
+        format!("{}|{}", case.kernel, case.path())
+    }
+
     fn sample(&self, case: &Case, o: &Outcome) -> Option<Json> {
         if case.nontrivial() { Some(json!({"case": case.to_json(), "path": case.path(), "max_err_over_bound": o.ratio})) } else { None }
     }
